@@ -238,6 +238,7 @@ def execute_run(scn, config, tape_values=None, run_seed=None, keep_events=0):
         "head": log.head,
         "steps": ctx.step,
         "known": dict(ctx.known),
+        "extra": _jsonable(ctx.extra),
         "wall": time.time() - t0,
     }
 
@@ -304,6 +305,7 @@ class RunContext:
         self.keys = keys
         self.step = 0
         self.known = {}  # id of known finding -> times matched in this run
+        self.extra = []  # small JSON-able records handed to the scenario's post_batch (thorough tier)
         self.prop = None
         self.findings = []
 
